@@ -17,7 +17,8 @@ for every item class: O2 lengths).  PRE(k) = E(0) ++ ... ++ E(k-1), OFF(k) = |PR
 
   encode      returns PRE(n)                                            (loop invariant bytestream == PRE(i))
   split       on PRE(n) yields exactly (type(E(k)), E(k)) for k = 0..n-1 (loop invariant offset == OFF(k); needs the two list
-              lemmas below at the current index)
+              lemmas below: SUB is what makes "the stream is PRE(n)" the same as "item k occupies stream[OFF(k):OFF(k+1)]",
+              the form the splitting proof uses (byte-array views, linear arithmetic only); MONO bounds every item by the end)
   decode      builds exactly one object per yielded pair, of the class registered for its type, decoded from exactly E(k),
               in order
   lengths     base + OFF(n)
@@ -91,20 +92,6 @@ class ListLemmaTask(FiniteTask):
         prove("MONO/step:m->m+1", [k >= 0, m > k, defs(E, PRE, m), mono(k, m)], mono(k, m + 1))
         prove("SUB/base:m=k+1", base_h, sub(k, k + 1))
         prove("SUB/step:m->m+1", [k >= 0, m > k, defs(E, PRE, m), mono(k, m), sub(k, m)], sub(k, m + 1))
-        # NTH: what SUB means byte by byte (used to hand the solver the header bytes of item k directly)
-        b, e = z3.Const("b", BYTES), z3.Const("e", BYTES)
-        o, j = z3.Ints("o j")
-        prove("NTH:a-sub-sequence-agrees-with-the-sequence-byte-by-byte",
-              [z3.SubSeq(b, o, z3.Length(e)) == e, o >= 0, j >= 0, j < z3.Length(e), o + z3.Length(e) <= z3.Length(b)], b[o + j] == e[j])
-
-
-def lemma_instances(E, PRE, k, n, header=0):
-    """MONO, SUB and NTH (for the header bytes) at the index the loop is at (justified by ListLemmaTask), plus the definition
-    unfolded there"""
-    nth = [z3.Implies(z3.Length(E(k)) > j, PRE(n)[OFF(PRE, k) + j] == E(k)[j]) for j in range(header)]
-    return z3.And(defs(E, PRE, k),
-                  z3.Implies(z3.And(k >= 0, k < n), z3.And(OFF(PRE, k) + z3.Length(E(k)) <= OFF(PRE, n),
-                                                          z3.SubSeq(PRE(n), OFF(PRE, k), z3.Length(E(k))) == E(k), *nth)))
 
 
 # ---------------------------------------------------------------------------------------------
@@ -202,23 +189,26 @@ class SplitLoop(LoopSpec):
         g = I.ghost
         k = I.fresh("int", "k").e
         g["k"] = k
-        E, PRE, n = g["E"], g["PRE"], g["n"]
-        t = self.task
-        I.assume(z3.And(k >= 0, k <= n, lemma_instances(E, PRE, k, n, t.header + (1 if t.kind == 'pdv' else 0)),
-                        z3.Implies(k < n, well_formed(E(k), t.header, t.lenfield, t.kind))))
+        I.assume(z3.And(k >= 0, k <= g["n"], self.task.item_facts(g, k)))
 
     def invariant(self, I, fr):
         g = I.ghost
-        return I._num(fr.locals[self.off], "int") == OFF(g["PRE"], g.get("k", z3.IntVal(0)))
+        return I._num(fr.locals[self.off], "int") == g["OFFS"](g.get("k", z3.IntVal(0)))
 
     def variant(self, I, fr):
-        return SV(z3.Length(I.z(fr.locals[self.buf])) - I._num(fr.locals[self.off], "int"), "int")
+        return SV(I.ghost["N"] - I._num(fr.locals[self.off], "int"), "int")
 
     def on_exit(self, I, fr):
         I.ghost["exit_k"] = I.ghost.get("k", z3.IntVal(0))
 
 
 class SplitFramingTask(Task):
+    """The stream is a ghost byte array `base` of length N that holds n items back to back: item k occupies
+    base[OFFS(k) : OFFS(k+1)] (OFFS(0) = 0, OFFS(n) = N) - by lemma SUB that is what the concatenation PRE(n) of the encoder
+    is.  Slices of the stream are views (base, lo, hi), so the proof is linear arithmetic over offsets plus reads of single
+    header bytes; no sequence reasoning is left to the solver.  MONO (OFFS(k+1) <= N for k < n) is assumed at the current
+    index, justified by ListLemmaTask."""
+
     def __init__(self, key, prefix="C01/"):
         self.key = key
         self.fn, self.header, self.lenfield, self.kind = SPLITTERS[key]
@@ -234,16 +224,33 @@ class SplitFramingTask(Task):
         c.loop_specs[(self.fn, 0)] = SplitLoop(off, buf, self)
         return c
 
+    def item_facts(self, g, k):
+        base, OFFS, n, N = g["base"], g["OFFS"], g["n"], g["N"]
+        o = OFFS(k)
+        ln = OFFS(k + 1) - o
+        at, width = self.lenfield
+        nb = self.header + (1 if self.kind == "pdv" else 0)
+        hdr_bytes = z3.And(*[z3.And(base[o + j] >= 0, base[o + j] <= 255) for j in range(nb)])
+        lenval = base[o + at]
+        for j in range(1, width):
+            lenval = lenval * 256 + base[o + at + j]
+        wf = z3.And(ln >= nb, hdr_bytes, lenval == ln - self.header)      # the per-item contract (C01 O2) for item k
+        return z3.And(OFFS(0) == 0, OFFS(n) == N, z3.Implies(k == n, o == N),
+                      z3.Implies(z3.And(k >= 0, k < n), z3.And(wf, o >= 0, OFFS(k + 1) <= N)))
+
     def body(self, I):
+        from pyvc.layout import LB, Slice
         g = I.ghost
         P = f"{self.prefix}{self.fn}"
-        E, PRE = theory()
         n = I.input("int", "n_items").e
         I.assume(n >= 0)
-        g.update(E=E, PRE=PRE, n=n)
-        b = I.input("bytes", "bytestream")
-        I.assume(z3.And(b.e == PRE(n), defs(E, PRE, z3.IntVal(0))))
-        kind, gen = I.run_function(I.repo.func(self.fn), [b])
+        base = I.input("bytes", "stream").e
+        N = z3.Length(base)
+        OFFS = z3.Function("OFFS", INT, INT)
+        g.update(n=n, base=base, N=N, OFFS=OFFS)
+        I.assume(self.item_facts(g, z3.IntVal(0)))
+        stream = LB([Slice(base, 0, N)])
+        kind, gen = I.run_function(I.repo.func(self.fn), [stream])
         if not isinstance(gen, GenObj):
             I.ob(f"{P}/is-a-generator", False)
             return
@@ -254,16 +261,15 @@ class SplitFramingTask(Task):
             return
         if ok:
             k = g["k"]
-            Ek = E(k)
+            o, o1 = OFFS(k), OFFS(k + 1)
             I.ob(f"{P}/an-item-is-yielded-only-while-items-remain", k < n)
+            good = isinstance(v, tuple) and len(v) == 2
             if self.kind == "type+item":
-                good = isinstance(v, tuple) and len(v) == 2
                 I.ob(f"{P}/the-k-th-yield-is-the-type-byte-and-the-whole-encoding-of-item-k",
-                     good and z3.And(I._num(v[0], "int") == Ek[0], I.z(v[1]) == Ek))
+                     good and z3.And(I._num(v[0], "int") == base[o], LB.of(I, v[1]).is_slice_of(I, base, o, o1)))
             else:
-                good = isinstance(v, tuple) and len(v) == 2
                 I.ob(f"{P}/the-k-th-yield-is-the-context-id-and-the-data-of-PDV-k",
-                     good and z3.And(I._num(v[0], "int") == Ek[4], I.z(v[1]) == z3.SubSeq(Ek, 5, z3.Length(Ek) - 5)))
+                     good and z3.And(I._num(v[0], "int") == base[o + 4], LB.of(I, v[1]).is_slice_of(I, base, o + 5, o1)))
             g["k"] = k + 1               # ghost: one more item consumed
             try:
                 I.gen_next(gen)          # rest of the iteration: invariant re-established, then the path ends
@@ -374,3 +380,78 @@ class WrapGenerateItemsTask(Task):
             return
         I.ob(f"{P}/the-splitter-is-given-the-whole-field", g.get("split_arg") is b)
         I.ob(f"{P}/returns-the-list-of-all-decoded-items", isinstance(val, SymSeq) and val.name == "decoded_items")
+
+
+# ---------------------------------------------------------------------------------------------
+# lengths: length = <fixed part>; for item in <list>: length += len(item)
+# ---------------------------------------------------------------------------------------------
+LENGTHS = {
+    # qualname of the property getter: (list attribute, fixed part of the length field per PS3.8)
+    f"{PDUM}:A_ASSOCIATE_RQ.pdu_length.fget": ("variable_items", 68),
+    f"{PDUM}:A_ASSOCIATE_AC.pdu_length.fget": ("variable_items", 68),
+    f"{PDUM}:P_DATA_TF.pdu_length.fget": ("presentation_data_value_items", 0),
+    f"{ITM}:PresentationContextItemRQ.item_length.fget": ("abstract_transfer_syntax_sub_items", 4),
+    f"{ITM}:UserInformationItem.item_length.fget": ("user_data", 0),
+}
+
+
+class LenLoop(LoopSpec):
+    def __init__(self, acc, fixed):
+        self.acc, self.fixed = acc, fixed
+
+    def invariant(self, I, fr):
+        g = I.ghost
+        i = I._num(fr.locals["__idx0"], "int")
+        TOT, LEN = g["TOT"], g["LEN"]
+        I.assume(z3.And(TOT(0) == 0, z3.Implies(i >= 0, TOT(i + 1) == TOT(i) + LEN(i))))       # definition of the running total
+        return I._num(fr.locals[self.acc], "int") == self.fixed + TOT(i)
+
+
+class LengthTask(Task):
+    """the length field of a container is its fixed part plus the sum of len(item) over ALL its items (any number)"""
+
+    def __init__(self, fn, prefix="C01/"):
+        self.fn = fn
+        self.attr, self.fixed = LENGTHS[fn]
+        self.name = fn.split(":")[1].replace(".fget", "") + "/any-number-of-items"
+        self.functions = [fn]
+        self.prefix = prefix
+
+    def config(self, repo):
+        c = Config()
+        c.ob_prefix = self.prefix
+        fi = repo.func(self.fn)
+        loops = [n for n in ast.walk(fi.node) if isinstance(n, (ast.For, ast.While))]
+        accs = sorted({n.target.id for n in ast.walk(fi.node) if isinstance(n, ast.AugAssign) and isinstance(n.target, ast.Name)})
+        if len(loops) != 1 or len(accs) != 1:
+            raise Unsupported(f"{self.fn}: expected one loop with one `acc += ...`")
+        c.loop_specs[(self.fn, 0)] = LenLoop(accs[0], self.fixed)
+
+        def env_call(I, env, method, args, kw):
+            if env.path.startswith("item[") and method == "__len__":
+                return SV(I.ghost["LEN"](env.index), "int")
+            return NotImplemented
+        c.env_call = env_call
+        return c
+
+    def body(self, I):
+        g = I.ghost
+        TOT, LEN = z3.Function("TOT", INT, INT), z3.Function("LEN", INT, INT)
+        g["TOT"], g["LEN"] = TOT, LEN
+        n = I.input("int", "n_items").e
+        I.assume(n >= 0)
+
+        def item(i):
+            e = Env(f"item[{z3.simplify(i)}]")
+            e.index = i
+            e.data["len"] = SV(LEN(i), "int")         # len(item): the item's own contract gives it (header + item_length)
+            return e
+        me = Env("self")
+        me.attrs[self.attr] = SymSeq("items", n, item)
+        kind, val = I.run_function(I.repo.func(self.fn), [me])
+        P = f"{self.prefix}{self.fn}"
+        I.ob(f"{P}/no-exception", kind == "return", detail=f"{kind}:{val!r}")
+        if kind != "return":
+            return
+        I.assume(z3.And(TOT(0) == 0))
+        I.ob(f"{P}/is-the-fixed-part-plus-the-lengths-of-all-items", I._num(val, "int") == self.fixed + TOT(n))
